@@ -68,6 +68,22 @@ class Fn:
         self._pred = None
         self._calls = None
         self._defs = None
+        self._promoted = None
+
+    def promoted(self, idx):
+        """the idx-th promoted constant body as a small Fn"""
+        if self._promoted is None:
+            self._promoted = {}
+        if idx not in self._promoted:
+            bodies = self.d.get("promoted", [])
+            if idx >= len(bodies):
+                return None
+            d = dict(self.d)
+            d["body"] = bodies[idx]
+            d["kind"] = "promoted"
+            d.pop("promoted", None)
+            self._promoted[idx] = Fn(self.prog, "%s::promoted[%d]" % (self.id, idx), d)
+        return self._promoted[idx]
 
     def __repr__(self):
         return "Fn(%s)" % self.id
